@@ -44,7 +44,11 @@ CORPUS = os.path.join(core.VERIF, "harness", "corpus")
 def _names(rng, n):
     used, out = set(), []
     while len(out) < n:
-        nm = rng.choice("abcxyzABQ") + rng.choice(["", str(rng.randint(0, 20))]) + rng.choice(["", "", "u", "X"])
+        if rng.random() < 0.04:
+            # unusual but legal (structurally typed) names: empty, blank, digits only, inner blanks
+            nm = rng.choice(["", " ", "0", "core 0", "-", "A b"])
+        else:
+            nm = rng.choice("abcxyzABQ") + rng.choice(["", str(rng.randint(0, 20))]) + rng.choice(["", "", "u", "X"])
         if nm.lower() not in used:
             used.add(nm.lower())
             out.append(nm)
